@@ -152,6 +152,10 @@ def st_solver(draw, spec, p=4):
 def st_matching(draw, tier):
     spec = draw(Z.st_eos(families=Z.FAMILIES, weights=FAMILY_WEIGHTS[tier]))
     tol = draw(Z.st_tolerances())
+    if draw(st.integers(0, 5)) == 0:
+        # a user-chosen absolute tolerance that is not negligible against the temperatures / energy densities of
+        # the model's units (the allowances scale with it)
+        tol = [1e-6, 1e-6]
     if spec["family"] == "traced" and tier == "quick":
         tol = [1e-6, 1e-10]
     return {"kind": "matching", "eos": spec, "tol": tol, "solver": draw(st_solver(spec)),
